@@ -235,14 +235,17 @@ def run(ctx):
     if ctx.tier == "thorough":
         # fresh interpreter for the process-wide caches
         code = ("import sys,html5lib;from xml.etree import ElementTree as E;"
-                "print(E.tostring(html5lib.parse(sys.argv[1]),encoding='unicode'))")
+                "d=sys.stdin.buffer.read().decode('utf-8','surrogatepass');"
+                "sys.stdout.buffer.write(E.tostring(html5lib.parse(d),encoding='unicode').encode('utf-8','surrogatepass'))")
         import xml.etree.ElementTree as E
         for d in docs[:4] + POOL:
-            sub = subprocess.run([sys.executable, "-c", code, d], capture_output=True, text=True, env={"PYTHONPATH": gen.REPO})
+            sub = subprocess.run([sys.executable, "-c", code], input=d.encode("utf-8", "surrogatepass"), capture_output=True,
+                                 env={"PYTHONPATH": gen.REPO})
             here = E.tostring(html5lib.parse(d), encoding="unicode")
             ctx.case("fresh-subprocess", d, nontrivial=True)
-            if sub.stdout.rstrip("\n") != here:
-                ctx.fail("warm-process-differs", "a warm process parses differently from a fresh interpreter", {"input": d})
+            if sub.returncode != 0 or sub.stdout.decode("utf-8", "surrogatepass") != here:
+                ctx.fail("warm-process-differs", "a warm process parses differently from a fresh interpreter",
+                         {"input": d, "stderr": sub.stderr.decode("utf-8", "replace")[-300:]})
 
 
 def replay(path):
